@@ -55,7 +55,7 @@ def mc(ctx: Ctx, rep: Report) -> None:
     lawful = ["Losses_lawful2.cfg"] + ([] if ctx.quick else ["Losses_lawful.cfg"])
     for cfg in lawful:
         res = ctx.tlc("Losses.tla", cfg)
-        rep.add_tlc(res, f"laws 1+2 hold for the five lawful shipped losses, both argument orientations ({cfg})")
+        rep.add_tlc(res, f"laws 1+2 hold for the five lawful shipped losses in both argument orientations, law 3 data-first as wired ({cfg})")
         if res.payloads:
             raise MachineryError("CexEmit printed a counterexample although the laws were reported to hold")
     for cfg, inv, what in [
@@ -65,6 +65,8 @@ def mc(ctx: Ctx, rep: Report) -> None:
         ("Losses_mean_law2dp.cfg", "Law2", "shipped mean, data-first as _Settings.loss calls it, rewards a larger prediction"),
         ("Losses_mape_sym.cfg", "Symmetric", "mean_absolute_percentage depends on the argument order"),
         ("Losses_mean_sym.cfg", "Symmetric", "mean depends on the argument order"),
+        ("Losses_mape_law3pd.cfg", "Law3Swapped", "prediction-first, mean_absolute_percentage scores a prediction c times too large "
+                                                   "better than one c times too small: the laws fix the residual's argument order (data first)"),
     ]:
         res = ctx.tlc("Losses.tla", cfg, expect_violation=True, workers=4)
         if res.violated != inv:
@@ -74,6 +76,8 @@ def mc(ctx: Ctx, rep: Report) -> None:
         rep.notes.setdefault("tlc_counterexamples", []).append(what)
     res = ctx.tlc("Losses.tla", "Losses_symmetric.cfg", workers=8)
     rep.add_tlc(res, "mean_squared, rmse, mae, mean_squared_logarithmic, cosine_similarity do not depend on the argument order")
+    res = ctx.tlc("Losses.tla", "Losses_sym_law3.cfg", workers=4)
+    rep.add_tlc(res, "law 3 holds in either argument order for the symmetric lawful losses (only the percentage loss decides the order)")
     res = ctx.tlc("Losses.tla", "Losses_reference.cfg", workers=4)
     rep.add_tlc(res, "a cosine DISTANCE satisfies both laws (the property is satisfiable for an angle-based loss)")
     res = ctx.tlc("Fit.tla", "Fit_contract.cfg", coverage=True, workers=8)
@@ -267,7 +271,7 @@ def _residual_case(scn: dict) -> list[dict]:
             e = scn["exp"][name][scl]
             vdp, vpd = term_value(e["dp"]), term_value(e["pd"])
             base = {"loss": name, "scaled": scl == "scaled"}
-            if vdp is None and vpd is None:
+            if vdp is None:
                 out.append({**base, "status": "undefined"})
                 continue
             if e["fragile"]:
@@ -281,11 +285,13 @@ def _residual_case(scn: dict) -> list[dict]:
                                 "observed": f"{type(ex).__name__}: {ex}"[:300]})
                     continue
             tol = _tolerance(scn, name, scl == "scaled")
+            # ONE call site wires every loss, scaled and unscaled: loss_fn(data, prediction).  The laws decide that order
+            # (Losses.tla, Law3: only data-first is lawful for the asymmetric percentage loss), so the residual must be
+            # the data-first value; "asym" counts the cases where the other order would give a different number.
             okdp = vdp is not None and close(obs, vdp, 1e-6, tol)
-            okpd = vpd is not None and close(obs, vpd, 1e-6, tol)
             differ = vdp is not None and vpd is not None and not close(vdp, vpd, 1e-6, 10 * tol)
-            if okdp or okpd:
-                out.append({**base, "status": "ok", "orient": ("both" if not differ else "dp" if okdp else "pd")})
+            if okdp:
+                out.append({**base, "status": "ok", "orient": ("asym" if differ else "sym")})
             else:
                 out.append({**base, "status": "bad", "expected": {"dp": vdp, "pd": vpd}, "observed": obs, "tolerance": tol})
     after = content_of(model, invalidate=True)
@@ -352,7 +358,7 @@ def residuals(ctx: Ctx, rep: Report, scns: list[dict]) -> None:
             pick += by[k] if len(by[k]) <= share else rnd.sample(by[k], share)
     results = pmap(_residual_case, pick, chunk=8)
     hist = {"ok": 0, "undefined": 0, "fragile": 0, "bad": 0}
-    orient = {"both": 0, "dp": 0, "pd": 0}
+    orient = {"sym": 0, "asym": 0}
     for scn, rs in zip(pick, results):
         rep.replayed += 1
         for r in rs:
@@ -367,9 +373,11 @@ def residuals(ctx: Ctx, rep: Report, scns: list[dict]) -> None:
                 rep.mismatch(slim(scn, r["loss"], scl),
                              {k: v for k, v in r.items() if k != "status"}, classify_residual(scn, r))
     rep.notes["residual_cases"] = hist
-    rep.notes["residual_argument_orientation_observed"] = {
-        **orient, "meaning": "dp = loss_fn(data, prediction), pd = loss_fn(prediction, data); 'both' = the two coincide. "
-                             "The statement does not fix the orientation; either is accepted (advisory)."}
+    rep.notes["residual_argument_order"] = {
+        **orient, "meaning": "every residual is compared with loss_fn(data, prediction); asym = cases in which "
+                             "loss_fn(prediction, data) is a different number (percentage loss, signed mean)"}
+    if orient["asym"] < 100:
+        raise MachineryError(f"too few residual cases in which the argument order matters: {orient}")
     if hist["ok"] + hist["bad"] < 1500:
         raise MachineryError(f"too few residual cases decided: {hist}")
     s = pick[len(pick) // 2]
@@ -404,7 +412,7 @@ def fit_cases(ctx: Ctx, scns: list[dict]) -> list[dict]:
                 and not s["exp"][loss]["scaled"]["fragile"]
             method = "L-BFGS-B" if j % 4 else "Nelder-Mead"
             cases.append({"scn": slim(s), "loss": loss, "scaled": bool(scaled), "method": method,
-                          "copy": j % 7 != 3, "id": len(cases)})
+                          "copy": j % 7 != 3, "id": len(cases), "reverse": j % 2 == 0})     # p0 keys not alphabetical
     # the unlawful losses may still be used for fitting: what is reported must be honest all the same
     extra = [s for s in by.get("ss", {}).get("none", []) if s["generated"]][:4 if ctx.quick else 24]
     for j, s in enumerate(extra):
@@ -421,6 +429,8 @@ def run_fit(case: dict) -> dict:
 
     scn = case["scn"]
     model, kind, kw, p_true, p_cand = build(scn)
+    if case.get("reverse"):
+        p_cand = dict(reversed(list(p_cand.items())))        # the caller's key order (x.., k2, k1): not alphabetical
     names = list(p_cand)
     loss_fn = getattr(losses, case["loss"])
     ev = [{"k": "entry", "content": content_of(model)}]
@@ -446,7 +456,9 @@ def run_fit(case: dict) -> dict:
             l1 = evaluate_at(fresh, kind2, kw2, best, case["loss"], case["scaled"])
             ev.append(event("reeval", names, best, l1))
         ev.append({"k": "exit", "content": content_of(model, invalidate=True)})
-    return {"id": case["id"], "copy": bool(case["copy"]), "generated": bool(scn["generated"]), "ev": ev}
+    lo, hi = (0.25, 8.0) if case.get("bounded") else (1e-6, 1e6)
+    p0in = all(lo <= v <= hi for v in p_cand.values())
+    return {"id": case["id"], "copy": bool(case["copy"]), "generated": bool(scn["generated"]), "p0in": bool(p0in), "ev": ev}
 
 
 def validate_traces(ctx: Ctx, rep: Report, traces: list[dict], tag: str, what: str) -> dict:
@@ -489,6 +501,11 @@ def corruptions(trace: dict) -> list[tuple[str, dict]]:
         t["ev"][idx["reeval"]]["lu"] = e["lu"]
         t["generated"] = True
         out.append(("reported loss worse than the starting point's", t))
+    first = next((i for i, e in enumerate(trace["ev"]) if e["k"] == "eval"), None)
+    if first is not None and trace.get("p0in") and len(set(trace["ev"][first]["ps"])) >= 2:
+        t = copy.deepcopy(trace)
+        t["ev"][first]["ps"] = list(reversed(t["ev"][first]["ps"]))
+        out.append(("first evaluation at a permutation of the caller's p0", t))
     t = copy.deepcopy(trace)
     t["copy"] = True
     t["ev"][-1]["content"] = list(t["ev"][-1]["content"][:-1]) + ["v:x1=0x1.8p+1"]
@@ -553,7 +570,8 @@ def run(ctx: Ctx) -> int:
     rep = Report(ctx)
     rep.rule = RULE
     rep.assumptions = [
-        "the argument order in which _Settings.loss calls the loss is not fixed by the statement: either orientation conforms",
+        "the residual's argument order is loss_fn(data, prediction) for every loss, scaled and unscaled: one wiring serves all "
+        "losses and TLC shows (Law3) that only data-first is lawful for the asymmetric mean_absolute_percentage",
         "law 2 is stated for non-negative data and predictions p >= d component-wise (concentrations)",
         "losses on standardised data are undefined when a data group has fewer than two entries or zero variance; the "
         "logarithmic loss is undefined on standardised data; such cases are outside the specification (counted)",
